@@ -246,7 +246,7 @@ def _guard_in_loop_is(lin, g, want_text: str) -> bool:
     return implies(g.guard, full) and implies(full, g.guard)
 
 
-@rule("C03.16", ["C03", "C06"], "edge filters of join and of return-edge bookkeeping are exactly the stated predicates (test-suite-surviving mutants)", 7)
+@rule("C03.16", ["C03", "C06", "C01", "C07"], "edge filters of join and of return-edge bookkeeping are exactly the stated predicates (test-suite-surviving mutants)", 7)
 def c03_16(ctx: Ctx):
     repo = ctx.repo
     fj = repo.func("_modify.join.are_joinable")
